@@ -7,6 +7,7 @@ From Coq Require Import List Bool Arith.
 Import ListNotations.
 
 Definition addr := nat.
+Bind Scope nat_scope with addr.
 
 (** message type url, as far as authz grants and allow-lists distinguish them *)
 Inductive mkind :=
